@@ -91,6 +91,8 @@ func (c Cond) String() string {
 		return x + ")"
 	case "result":
 		return "result(" + strconv.Itoa(c.V) + ")"
+	case "errs0":
+		return "errs()"
 	}
 	return c.K
 }
@@ -474,6 +476,8 @@ func applyHandle[B interface {
 }](b B, cs []Cond) B {
 	for _, c := range cs {
 		switch {
+		case c.K == "errs0":
+			b = b.HandleErrors() // a registration call with an empty list: no condition is configured
 		case c.K == "errs":
 			b = b.HandleErrors(append([]error{c.E}, c.Es...)...)
 		case c.K == "types":
@@ -764,6 +768,8 @@ func (env *Env) build(i int, s Spec) failsafe.Policy[int] {
 			b = b.CacheIf(func(v int, err error) bool { return v == 1 })
 		case "err":
 			b = b.CacheIf(func(v int, err error) bool { return err != nil })
+		case "v1|err": // two conditions registered: either one suffices
+			b = b.CacheIf(func(v int, err error) bool { return v == 1 }).CacheIf(func(v int, err error) bool { return err != nil })
 		}
 		return b.OnCacheHit(env.doneEv(i, "hit")).OnCacheMiss(env.attemptEv(i, "miss")).OnResultCached(env.attemptEv(i, "cached")).Build()
 	}
